@@ -36,7 +36,7 @@ CHECKS = {
             ASSUME + "Declared pre-conditions: finite 2-D sample, 0 < alpha < 1. shapely's unary_union / exterior ring order is bounded only.", TECH + " + bounded run-time contracts", "DESIGN.md 3 C04"),
     "C05": ("proof",
             "Every family's _get_scipy_parameters is proved (all None-patterns) to return the documented scipy slots at the effective parameters; cdf/icdf/pdf are proved against that contract for "
-            "scalar/list/array x, every single-parameter override and vector parameters; explicit-vs-constructed and evaluate-fit-evaluate lemmas run the real constructors/methods; norm-fit mean/std identities by z3.",
+            "scalar/list/array x, every single-parameter override and vector parameters; explicit-vs-constructed and evaluate-fit-evaluate lemmas run the real constructors/methods (also across instances of different ScipyDistribution subclasses: no shared state); norm-fit mean/std identities by z3.",
             ASSUME + "scipy.stats closed forms per family in (shapes, loc, scale) parameterisation are assumed (bounded numerical comparison in vf/rt/C05.py).", TECH, "DESIGN.md 3 C05"),
     "C06": ("other",
             "Deductive: GlobalHierarchicalModel.pdf factorisation for every structure of 1-4 variables and for a SYMBOLIC number of variables (loop invariant), non-finite rejection; the integrands/ranges handed to nquad by "
@@ -53,7 +53,8 @@ CHECKS = {
             ASSUME + "User dependence callables are element-wise and pure.", TECH, "DESIGN.md 3 C08"),
     "C09": ("other",
             "Deductive (wiring): GlobalHierarchicalModel.fit (own options per dimension, declared conditioning column), _split_in_intervals (slicer of the conditioning dimension, masks over input positions), "
-            "_check_and_fill_fit_desc, ConditionalDistribution.fit (copy of the template per interval, dependence inputs). Order invariance itself rests on C10's value-based masks plus scipy's permutation invariance: bounded.",
+            "_check_and_fill_fit_desc, ConditionalDistribution.fit (copy of the template per interval, dependence inputs), DependenceFunction._fit and the fit-order / re-fit protocol (every DAG shape <= 3, every order), "
+            "EW _fit_lsq (every weight specification aligned with the SORTED data, hence independent of the row order). Order invariance of the numerical fits rests on C10's value-based masks plus scipy's permutation invariance: bounded.",
             ASSUME + "scipy fit / curve_fit invariant under permutation of their data up to optimiser tolerance (bounded).", TECH + " + bounded run-time contracts", "DESIGN.md 3 C09"),
     "C10": ("other",
             "Deductive in exact arithmetic (mode R): _drop_too_small_intervals for a symbolic number of intervals (loop invariant, induction lemma), Width/NumberOfIntervals _slice (aligned, value-based, boundaries, references, "
